@@ -20,9 +20,68 @@ class C16(C05):
             "Non-trivial: history with at least one refused operation on a non-empty database; distinct by history.")
 
     def gen_zero_cases(self):
-        return iter(())          # the read-only frame on explicit zeros belongs to C05
+        # (the read-only frame on explicit zeros belongs to C05; here:) one very large batch - tens of thousands of fingerprints,
+        # as a whole library is added - whose single incompatible member sits anywhere, also far behind the first thousands
+        rng = self.rng
+        for _ in range(2 if self.tier == "quick" else 12):
+            n = rng.choice([17000, 20000, 33000])
+            self.count("very-large-batch")
+            yield {"t": "bigbatch", "n": n, "pos": rng.choice([n - 1, n - 2, rng.randrange(16384, n), rng.randrange(n)]),
+                   "fault": rng.choice(["bits", "level"]), "kind": rng.choice(["bit", "count"]), "pre": rng.choice([0, 3]), "seed": rng.randrange(10 ** 6)}
+
+    def impl(self, case):
+        if case.get("t") == "bigbatch":
+            return {"ok": "see prop"}
+        return super().impl(case)
+
+    def model_ops(self, case):
+        if case.get("t") == "bigbatch":
+            return [{"op": "fpr.hash", "words": []}]
+        return super().model_ops(case)
+
+    def model_answer(self, case, answers):
+        if case.get("t") == "bigbatch":
+            return {"ok": "see prop"}
+        return super().model_answer(case, answers)
+
+    def compare(self, case, a_impl, a_model):
+        if case.get("t") == "bigbatch":
+            return None
+        return super().compare(case, a_impl, a_model)
+
+    def prop(self, case):
+        if case.get("t") != "bigbatch":
+            return super().prop(case)
+        import numpy as np
+        from harness.fpgen import CLS
+        from harness.dbgen import FingerprintDatabase, dump_db
+        r = np.random.RandomState(case["seed"])
+        cls = CLS[case["kind"]]
+
+        def mk(i, bits=64, level=5):
+            f = cls.from_indices(r.randint(0, bits, size=3), bits=bits, level=level)
+            f.name = "m%d" % i
+            return f
+        db = FingerprintDatabase(fp_type=cls, level=5, name="big")
+        if case["pre"]:
+            db.add_fingerprints([mk(-1 - i) for i in range(case["pre"])])
+        before = dump_db(db)
+        batch = [mk(i) for i in range(case["n"])]
+        batch[case["pos"]] = mk(case["pos"], bits=128) if case["fault"] == "bits" else mk(case["pos"], level=2)
+        try:
+            db.add_fingerprints(batch)
+            return {"key": "fault-accepted:add:" + case["fault"], "what": "a batch of %d with a wrong-%s member at %d was accepted" % (case["n"], case["fault"], case["pos"])}
+        except Exception:  # noqa: BLE001
+            pass
+        if dump_db(db) != before:
+            return {"key": "refusal-not-atomic:add:%s:very-large-batch" % case["fault"],
+                    "what": "a batch of %d fingerprints whose member %d has the wrong %s was refused, but the database went from %d to %d rows" % (
+                        case["n"], case["pos"], case["fault"], before["n"], dump_db(db)["n"])}
+        return None
 
     def nontrivial(self, case, a_impl):
+        if case.get("t") == "bigbatch":
+            return vlib.canon(case)
         if any(o.get("fault") for o in case.get("ops", [])):
             return vlib.canon(case)
         return None
